@@ -10,11 +10,22 @@
        (roles swapped = coordinates swapped by swapV, actions exchanged,
        liveness complemented, Moore <-> Mealy, strict <-> non-strict) are
        complementary: every valuation is in exactly one of them.
-   The game-semantic reading of (1) is not mechanised (as for C01). *)
+   (3) GAME SEMANTICS (theories/L4/Plays.v .. Determinacy.v), for non-empty
+       liveness lists and every in-range state s: the last iterate holds at s
+       iff the component has a strategy all of whose plays from s keep the
+       component's action as the mode obliges and, if the environment keeps
+       its action forever, have some persistence predicate holding from some
+       point on AND every recurrence predicate holding infinitely often
+       (C04_region_is_winning_region); outside the region the environment has
+       a strategy against which no play satisfies that objective
+       (C04_outside_environment_wins).  The converse duality (complement of the
+       Rabin(1) region = opponent's Streett(1) region) is C04_duality_converse.
+       (3) depends on Classical_Prop.classic; (1), (2) are axiom-free. *)
 From Coq Require Import List Bool Arith Lia.
-From Omega Require Import L4.Arena L4.Kleene L4.GameSpec L4.Mu L4.GR1Spec L4.Duality.
+From Omega Require Import L4.Arena L4.Kleene L4.GameSpec L4.Mu L4.GR1Spec L4.Duality
+  L4.Duality2 L4.Plays L4.Determinacy.
 From OmegaGen Require Import FixpointGen Gr1Gen.
-From OmegaGP Require Import FixpointProofs StreettProofs RabinProofs DualityProofs.
+From OmegaGP Require Import FixpointProofs StreettProofs RabinProofs DualityProofs GameSemantics.
 
 Section C04.
 Variables nc nx ny : nat.
@@ -47,6 +58,35 @@ Theorem C04_duality_solvers : forall fuel,
   negb (opponent_rabin_region nc nx ny E S holds goals moore plus_one fuel (swapV v)).
 Proof. exact (solvers_partition nc nx ny E S holds goals moore plus_one). Qed.
 
+Theorem C04_duality_converse : forall v, inr nc nx ny v ->
+  rabin_spec nc nx ny moore plus_one E S holds goals v =
+  negb (streett_spec nc ny nx (negb moore) (negb plus_one) (dual S) (dual E)
+          (map Phi goals) (map Phi holds) (swapV v)).
+Proof. exact (rabin_streett_partition nc nx ny moore plus_one E S holds goals). Qed.
+
+(* ---- game semantics ---- *)
+Theorem C04_region_is_winning_region : forall c fuel s,
+  c < nc -> 0 < length goals -> 0 < length holds -> NV nc nx ny <= fuel ->
+  fst s < nx -> snd s < ny ->
+  (last (fst (fst (Gr1Gen.solve_rabin_game nc nx ny E S holds goals moore plus_one fuel)))
+        bfalse (stv c s) = true
+   <-> comp_wins nx ny moore (win_rabin c E S holds goals plus_one) s).
+Proof.
+  intros c fuel s Hc HR HP Hf.
+  exact (rabin_solved_exact nc nx ny E S holds goals moore plus_one c Hc HR HP fuel Hf s).
+Qed.
+
+Theorem C04_outside_environment_wins : forall c fuel s,
+  c < nc -> 0 < length goals -> 0 < length holds -> NV nc nx ny <= fuel ->
+  fst s < nx -> snd s < ny ->
+  last (fst (fst (Gr1Gen.solve_rabin_game nc nx ny E S holds goals moore plus_one fuel)))
+       bfalse (stv c s) = false ->
+  env_prevents nx ny moore (win_rabin c E S holds goals plus_one) s.
+Proof.
+  intros c fuel s Hc HR HP Hf.
+  exact (rabin_solved_complete nc nx ny E S holds goals moore plus_one c Hc HR HP fuel Hf s).
+Qed.
+
 End C04.
 
 Local Open Scope bool_scope.
@@ -64,6 +104,20 @@ Example C04_duality_example :
   /\ NV 1 2 2 <= 20.
 Proof. vm_compute. split; [reflexivity|repeat constructor]. Qed.
 
+(* non-vacuity of the game-semantic statement: winning and losing states *)
+Example C04_region_example :
+  let E : bdd := fun v => true in
+  let S : bdd := fun v => Nat.eqb (vyp v) (vy v) in
+  let P : bdd := fun v => true in
+  let R : bdd := fun v => Nat.eqb (vy v) 1 in
+  map (fun s => last (fst (fst (Gr1Gen.solve_rabin_game 1 2 2 E S [P] [R] false true 20)))
+                     bfalse (stv 0 s)) [(0, 0); (0, 1); (1, 0); (1, 1)]
+  = [false; true; false; true] /\ NV 1 2 2 <= 20.
+Proof. vm_compute. split; [reflexivity|repeat constructor]. Qed.
+
+Print Assumptions C04_region_is_winning_region.
+Print Assumptions C04_outside_environment_wins.
+Print Assumptions C04_duality_converse.
 Print Assumptions C04_rabin_fixpoint_exact.
 Print Assumptions C04_spec_outer_is_least_fixpoint.
 Print Assumptions C04_duality_spec.
